@@ -11,6 +11,8 @@ def run(F, G, tier, seed):
     rewrites.run_alias(chk, G, L, K)
     rewrites.run_blanks(chk, L)
     rewrites.run_idtok(chk, G, L, K)
+    rewrites.run_xmlnames(chk, F, G, K)
+    rewrites.run_idroles(chk, G, L)
     rewrites.run_lexonly(chk, F)
     rewrites.run_commentlang(chk, L, maxlen=5 if tier == "quick" else 7)
     rewrites.run_diag_sink(chk, F)
